@@ -42,7 +42,7 @@ THEOREMS = [
     'C03.sweep_loops_as_modelled',
     # statement audit: the driver's memoised acceptance test / pipeline is the model of the theorems; shape of the array
     'C03.table_accept_as_modelled', 'C03.driver_pipeline_as_modelled', 'C03.nlistCall_shape',
-    'C03.nlistCall_sizes_irrelevant', 'C03.nlistCall_structure',
+    'C03.nlistCall_sizes_irrelevant', 'C03.nlistCall_structure', 'C03.nearCutoff_iff',
 ]
 PARTIAL = {}
 RULE = ('systems: orthogonal / tilted / general (rotated, left-handed) cells with non-zero origin, all 8 pbc '
